@@ -190,7 +190,15 @@ fn edit(r: &mut Rng, m: &ModelS, counter: &mut usize) -> (ModelS, bool, String) 
             if n[ni].entities[ei].fields.len() < 2 {
                 return (n, true, "no-op".into());
             }
-            n[ni].entities[ei].fields.remove(0);
+            // a deprecated field is still a field: removing it is refused like any other removal
+            let dep: Vec<usize> = n[ni].entities[ei].fields.iter().enumerate().filter(|(_, f)| f.deprecated).map(|(i, _)| i).collect();
+            if !dep.is_empty() && r.chance(2, 3) {
+                let i = *r.pick(&dep);
+                n[ni].entities[ei].fields.remove(i);
+                return (n, false, "remove-deprecated-field".into());
+            }
+            let i = r.usize(n[ni].entities[ei].fields.len());
+            n[ni].entities[ei].fields.remove(i);
             (n, false, "remove-field".into())
         }
         8 => {
@@ -214,7 +222,14 @@ fn edit(r: &mut Rng, m: &ModelS, counter: &mut usize) -> (ModelS, bool, String) 
             if n[ni].entities.len() < 2 {
                 return (n, true, "no-op".into());
             }
-            n[ni].entities.remove(0);
+            let dep: Vec<usize> = n[ni].entities.iter().enumerate().filter(|(_, e)| e.deprecated).map(|(i, _)| i).collect();
+            if !dep.is_empty() && r.chance(2, 3) {
+                let i = *r.pick(&dep);
+                n[ni].entities.remove(i);
+                return (n, false, "remove-deprecated-entity".into());
+            }
+            let i = r.usize(n[ni].entities.len());
+            n[ni].entities.remove(i);
             (n, false, "remove-entity".into())
         }
         12 => {
@@ -315,7 +330,32 @@ pub fn directed(property: &str) -> Vec<Trace> {
     let mut mixed = base.clone();
     mixed[0].entities[0].fields.push(fn_("x", 0));
     mixed[0].entities[1].fields[0].ty = 0;
+    // a field is deprecated (valid), then dropped (refused), then a field is added (valid): identifiers stay put
+    let mut dep = base.clone();
+    dep[0].entities[0].fields.push(fn_("x", 0));
+    let mut dep2 = dep.clone();
+    dep2[0].entities[0].fields[1].deprecated = true;
+    let mut dropped = dep2.clone();
+    dropped[0].entities[0].fields.remove(1);
+    let mut added = dep2.clone();
+    added[0].entities[0].fields.push(fn_("y", 1));
     vec![
+        mk(
+            "C15 deprecated field dropped (refused), then a field added, restart, second node started on the last version",
+            vec![
+                Step::Fill { node: 0 },
+                Step::Version { model: dep.clone(), valid: true, edit: "add-field".into(), at_restart: false, node: 0 },
+                Step::Version { model: dep2.clone(), valid: true, edit: "deprecate-field".into(), at_restart: false, node: 0 },
+                Step::Version { model: dropped.clone(), valid: false, edit: "remove-deprecated-field".into(), at_restart: false, node: 0 },
+                Step::Version { model: added.clone(), valid: true, edit: "add-field".into(), at_restart: false, node: 0 },
+                Step::Version { model: dep.clone(), valid: true, edit: "add-field".into(), at_restart: true, node: 1 },
+                Step::Version { model: dep2.clone(), valid: true, edit: "deprecate-field".into(), at_restart: true, node: 1 },
+                Step::Version { model: added.clone(), valid: true, edit: "add-field".into(), at_restart: true, node: 1 },
+                Step::Fill { node: 0 },
+                Step::Restart { node: 0 },
+                Step::Restart { node: 1 },
+            ],
+        ),
         mk(
             "C15 version adding several fields at once on two nodes, then the same model at restart",
             vec![
